@@ -537,4 +537,23 @@ theorem trun_vals {name : α → η} (hinj : ∀ a b, name a = name b → a = b)
 
 end Table
 
+/-! ### observables -/
+
+section Obs
+variable {κ ν : Type} [DecidableEq κ]
+
+theorem observe_spec {f : κ → Option ν} {cap : Nat} (hcap : 0 < cap) (d : Discipline) (hd : d ≠ .assertHit)
+    {c : LRU κ ν} (hi : Inv f c) (k : κ) :
+    (observe d cap f c k).1 = f k ∧ Inv f (observe d cap f c k).2 := by
+  cases d with
+  | pure => exact ⟨rfl, hi⟩
+  | recompute => exact goA_spec hcap k hi
+  | assertHit => exact absurd rfl hd
+
+theorem observe_assert_cold (cap : Nat) (f : κ → Option ν) (k : κ) :
+    (observe .assertHit cap f ([] : LRU κ ν) k).1 = none := by
+  simp [observe, assertHit, has]
+
+end Obs
+
 end Dx.Cache
